@@ -100,7 +100,13 @@ func buildInstrumented(kind string) (string, func(), error) {
 	t.Dir = "/verif/harness"
 	t.Env = env
 	if out, err := t.CombinedOutput(); err != nil {
-		return "", cleanup, fmt.Errorf("the repository's tests fail on the instrumented copy (instrumentation changed behaviour, or the tree's tests fail):\n%s", out)
+		// not fatal: a tree whose behaviour depends on map order may fail
+		// its own tests under the canonical order; the check decides
+		tail := string(out)
+		if len(tail) > 600 {
+			tail = tail[len(tail)-600:]
+		}
+		fmt.Printf("note: the repository's tests do not pass on the instrumented copy (canonical map order):\n%s\n", tail)
 	}
 	bin := "/verif/bin/check_" + kind
 	args := []string{"build", "-tags", "verif", "-overlay", rep.Overlay}
